@@ -265,8 +265,38 @@ def new_outcome() -> dict[str, Any]:
             "samples": [], "sim_us": 0, "inconclusive": 0}
 
 
+def state_hashes(h: History) -> set[str]:
+    """Distinct durable states visited: hash of (stage -> status, task -> status, workflow status, queue message
+    type multiset) at every commit boundary, with run-specific ids mapped to stable names."""
+    st: dict[str, str] = {}
+    q: dict[str, str] = {}
+    out: set[str] = set()
+    bounds = set(h.his)
+    for r in h.audit:
+        k = r["kind"]
+        if k in ("stage", "stage_ins"):
+            st["s:" + h.key_of_stage(r["row_id"])] = r["new"]
+        elif k in ("task", "task_ins"):
+            ti = h.task_info.get(r["row_id"]) or {}
+            st["t:" + str(ti.get("stage", ""))[-6:] + ":" + str(ti.get("name"))] = r["new"]
+        elif k in ("wf", "wf_ins"):
+            st["wf"] = r["new"]
+        elif k == "q_ins":
+            q[r["row_id"]] = r["new"]
+        elif k == "q_del":
+            q.pop(r["row_id"], None)
+        if r["seq"] in bounds:
+            key = repr((sorted(st.items()), sorted(q.values())))
+            out.add(hashlib.sha1(key.encode()).hexdigest()[:12])
+    return out
+
+
 def absorb(out: dict[str, Any], r: dict[str, Any], nontrivial: bool) -> None:
     out["execs"] += 1
+    if r.get("h") is not None:
+        sh = out.setdefault("state_hashes", set())
+        if len(sh) < 300000:
+            sh |= state_hashes(r["h"])
     out["sim_us"] += r["sim_us"]
     out["digests"][r["digest"]] = bool(out["digests"].get(r["digest"])) or nontrivial
     for key in ("faults", "probes", "stats"):
